@@ -120,7 +120,11 @@ pub fn run_glyphs(args: &Args) {
 // sparse layer masters at *different* locations, each redrawing different glyphs: glyphs whose own location sets differ
 // (but have the same size) then carry the same sequence of advances over their own masters. A per-glyph computation that
 // is shared between glyphs by anything less than (location set, values) is exposed by these inputs.
-pub fn gen_adv_design(rng: &mut Rng) -> design::Design {
+pub fn gen_adv_design(rng: &mut Rng) -> design::Design { gen_adv_design_with(rng, false) }
+
+/// `share_outlines`: glyphs of one profile also share their outlines (in every full master and in the sparse layers), so
+/// that glyphs with different own location sets carry identical point sequences (stream `c03adv`).
+pub fn gen_adv_design_with(rng: &mut Rng, share_outlines: bool) -> design::Design {
     let mut o = design::GenOpts::default();
     o.max_axes = 1 + rng.below(2);
     o.max_glyphs = 6;
@@ -139,6 +143,21 @@ pub fn gen_adv_design(rng: &mut Rng) -> design::Design {
         (full, base + rng.range(-60, 200) as f64)
     }).collect();
     let which: Vec<usize> = names.iter().map(|_| rng.below(2)).collect();
+    if share_outlines {
+        for m in d.masters.iter_mut() {
+            for p in 0..2 {
+                let firsts: Vec<&String> = names.iter().zip(&which).filter(|(_, w)| **w == p).map(|(n, _)| n).collect();
+                if let Some(first) = firsts.first() {
+                    if let Some(src) = m.glyphs.get(*first).cloned() {
+                        for n in firsts.iter().skip(1) {
+                            if let Some(g) = m.glyphs.get_mut(*n) { g.contours = src.contours.clone(); g.components = src.components.clone(); }
+                        }
+                    }
+                }
+            }
+        }
+    }
+    let mut sparse_shape: Vec<Option<design::GlyphDef>> = vec![None, None];
     for (mi, m) in d.masters.iter_mut().enumerate() {
         for (gi, n) in names.iter().enumerate() {
             if let Some(g) = m.glyphs.get_mut(n) {
@@ -167,6 +186,12 @@ pub fn gen_adv_design(rng: &mut Rng) -> design::Design {
             let n = free.remove(rng.below(free.len()));
             let gi = names.iter().position(|x| *x == n).unwrap();
             let mut g = design::vary_glyph(rng, &base[&n], 60, false);
+            if share_outlines {
+                match &sparse_shape[which[gi]] {
+                    Some(shape) => { g.contours = shape.contours.clone(); g.components = shape.components.clone(); }
+                    None => sparse_shape[which[gi]] = Some(g.clone()),
+                }
+            }
             g.advance = prof[which[gi]].1;
             if g.height.is_some() { g.height = Some(prof[which[gi]].1 + 500.0); }
             m.glyphs.insert(n, g);
@@ -176,12 +201,15 @@ pub fn gen_adv_design(rng: &mut Rng) -> design::Design {
     d
 }
 
-pub fn run_adv(args: &Args) {
+pub fn run_adv(args: &Args) { run_adv_stream("c04adv", false, args) }
+pub fn run_adv_shared(args: &Args) { run_adv_stream("c03adv", true, args) }
+
+fn run_adv_stream(stream: &'static str, share_outlines: bool, args: &Args) {
     let seed = args.seed;
-    crate::run_cases("c04adv", args, move |i| {
-        let mut rng = Rng::for_case(seed, "c04adv", i);
-        let d = gen_adv_design(&mut rng);
-        let tmp = build::tmpdir("c04adv");
+    crate::run_cases(stream, args, move |i| {
+        let mut rng = Rng::for_case(seed, stream, i);
+        let d = gen_adv_design_with(&mut rng, share_outlines);
+        let tmp = build::tmpdir(stream);
         let ds = write::write_design(tmp.path(), &d);
         let res = build::compile(&ds, &build::BuildOpts::default());
         let mut f = vec![d.to_sexp()];
